@@ -76,6 +76,14 @@ def _walk_semantics(f, body, lp):
         return "no loop"
     flags = [l for l, d in enumerate(body.locals) if f.ty(d["ty"]).k == "bool" and d.get("name") and l > body.arg_count
              and any(dd[0] in lp[1] for dd in body.defs().get(l, []) if dd[0] is not None)]
+    if len(flags) > 1 and getattr(f, "raw_body", None) is not None and f.raw_body is not body:
+        # locals appended by splicing a helper (its parameters, its own temporaries) are copies, not the loop's state
+        own = [l for l in flags if l < len(f.raw_body.locals)]
+        flags = own or flags
+    if len(flags) > 1:
+        # the state is loop-carried: initialised before the loop and updated inside it (a pattern binding inside a round is not)
+        carried = [l for l in flags if any(dd[0] is not None and dd[0] not in lp[1] for dd in body.defs().get(l, []))]
+        flags = carried or flags
     fo = [l for l in range(1, body.arg_count + 1) if f.ty(body.locals[l]["ty"]).k == "bool"]
     if len(flags) != 1 or len(fo) != 1:
         return "state flag / first_only parameter not identified (%d/%d)" % (len(flags), len(fo))
@@ -215,7 +223,10 @@ def entry_points(prog, rep):
         for b, t in f.body.calls():
             if is_callee(t, r"parse_error::find_errors$"):
                 tr = tr or Tracer(f.body)
-                got.setdefault(f.name, []).append((canon(strip(tr.operand(t["args"][2]))), canon(strip(tr.operand(t["args"][0])))))
+                # the first_only argument is the boolean one, wherever the (private) signature puts it
+                flags_ = [canon(strip(tr.operand(a))) for a in t["args"]]
+                fo_ = [x for x in flags_ if x in ("true", "false")]
+                got.setdefault(f.name, []).append((fo_[0] if len(fo_) == 1 else "?", canon(strip(tr.operand(t["args"][0])))))
     for nm, fo in want.items():
         g = got.get(nm, [])
         rep.check(len(g) == 1 and g[0][0] == fo and g[0][1] in ("arg:tree",), "C18.E", "ParseError::%s" % nm, "", "find_errors(tree, .., %s)" % fo, "%s calls find_errors as %s" % (nm, g))
@@ -227,7 +238,9 @@ def entry_points(prog, rep):
             ok = any(is_callee(t, r"parse_error::%s::%s$" % (inner, pub)) for b, t in fl[0].body.calls())
         rep.check(ok, "C18.E", "ParseError::%s delegates" % pub, "", "→ %s::%s" % (inner, pub), "public %s does not delegate to the owning bundle" % pub)
     # the owned variants return first element / whole vector
-    for nm, pat in (("first", r"^Iterator::next\(&IntoIterator::into_iter\(Vec::new\(\)\)\)$"), ("all", r"^Vec::new\(\)$")):
+    # (the vector of errors is either filled in place — `Vec::new()` handed to find_errors by `&mut` — or returned by find_errors)
+    VEC = r"(Vec::new\(\)|parse_error::find_errors\(&\*arg:tree, (true|false)\))"
+    for nm, pat in (("first", r"^Iterator::next\(&IntoIterator::into_iter\(" + VEC + r"\)\)$"), ("all", "^" + VEC + "$")):
         fl = [f for f in prog.shape_fns() if f.name == nm and f.self_path == "tsg::parse_error::ParseError"]
         if len(fl) == 1:
             r = canon(Tracer(fl[0].body).local(0))
